@@ -128,12 +128,9 @@ Definition spec_sp (c : spcase) (obs : list tok) : list tok :=
 Record ast := mkast { ah : nat -> hv; aval : nat -> Z; anext : nat }.
 Definition ainit : ast := mkast (fun i => if is_r i then Null else Absent) (fun _ => 0%Z) 0.
 
-Definition nonabs (v : hv) : hv := match v with Ptr o => Ptr o | _ => Null end.
 (* take what s holds (leaving it null) and put it into d *)
 Definition transfer (h : nat -> hv) (d s : nat) : nat -> hv := let v := nonabs (h s) in upd (upd h s Null) d v.
 Definition aset (a : ast) (h : nat -> hv) : ast := mkast h (aval a) (anext a).
-Definition afresh (a : ast) (d : nat) (v : Z) : ast :=
-  mkast (upd (ah a) d (Ptr (anext a))) (upd (aval a) (anext a) v) (S (anext a)).
 
 Definition aresult (a : ast) (op : pop) : list tok :=
   match op with
@@ -144,20 +141,28 @@ Definition aresult (a : ast) (op : pop) : list tok :=
   | _ => []
   end.
 
+(* the ownership graph after an operation *)
+Definition ahs (h : nat -> hv) (next : nat) (op : pop) : nat -> hv :=
+  match op with
+  | UNew d _ | URstN d _ | SNew d _ | SFromStd d _ => upd h d (Ptr next)
+  | UNull d | UAn d | URst d | SNull d | SAn d => upd h d Null
+  | UMc d s | UMa d s | SMc d s | SMa d s | SFromU d s => transfer h d s
+  | URel d r => transfer h r d
+  | UAdopt d r => transfer h d r
+  | USwap d s | SSwap d s => upd (upd h d (h s)) s (h d)
+  | UDel d | SDel d => upd h d Absent
+  | SCc d s | SCa d s => upd h d (nonabs (h s))
+  | USetV _ _ | SSetV _ _ | UVal _ | SVal _ | UEq _ _ | SEq _ _ | UStd _ => h
+  end.
 Definition aexec (a : ast) (op : pop) : ast :=
   let h := ah a in
-  match op with
-  | UNew d v | URstN d v | SNew d v | SFromStd d v => afresh a d v
-  | UNull d | UAn d | URst d | SNull d | SAn d => aset a (upd h d Null)
-  | UMc d s | UMa d s | SMc d s | SMa d s | SFromU d s => aset a (transfer h d s)
-  | URel d r => aset a (transfer h r d)
-  | UAdopt d r => aset a (transfer h d r)
-  | USwap d s | SSwap d s => aset a (upd (upd h d (h s)) s (h d))
-  | UDel d | SDel d => aset a (upd h d Absent)
-  | SCc d s | SCa d s => aset a (upd h d (nonabs (h s)))
-  | USetV d v | SSetV d v => match h d with Ptr o => mkast h (upd (aval a) o v) (anext a) | _ => a end
-  | UVal _ | SVal _ | UEq _ _ | SEq _ _ | UStd _ => a
-  end.
+  mkast (ahs h (anext a) op)
+        (match op with
+         | UNew _ v | URstN _ v | SNew _ v | SFromStd _ v => upd (aval a) (anext a) v
+         | USetV d v | SSetV d v => match h d with Ptr o => upd (aval a) o v | _ => aval a end
+         | _ => aval a
+         end)
+        (match op with UNew _ _ | URstN _ _ | SNew _ _ | SFromStd _ _ => S (anext a) | _ => anext a end).
 Definition astep (a : ast) (op : pop) : ast * list tok :=
   if hvalid (ah a) op then (aexec a op, aresult a op) else (a, [tag "skip"]).
 Definition aend (a : ast) : ast := aset a (fun i => if is_r i then Null else Absent).
